@@ -1,7 +1,7 @@
 //! The SOCKS5 forwarder end to end: the real endpoint (`Core::listen` on a loopback port) configured with a SOCKS5 upstream,
 //! a scripted SOCKS5 server on loopback, a real HTTP/1.1-over-TLS client.
 //! in : [extended_auth (0|1), client sends credentials (0|1), method the server selects, auth status, reply code, bound address type (1|3|4),
-//!       tail bytes after the reply, server delivery: 0 whole | 1 byte-wise]
+//!       tail bytes after the reply, server delivery: 0 whole | 1 byte-wise, destination: 0 name | 1 IPv4 | 2 IPv6 | 3 IPv4-mapped IPv6]
 //! out: [996] | [status, X-Warning code, bytes of the tunnel intact (0|1)] socks-received target-seen
 //!        intact: after a 200 the client reads the server's tail followed by the echo of what it sent, nothing else
 //!        target-seen: [atyp, port] address-bytes of the CONNECT request the SOCKS server received (or empty)
@@ -164,7 +164,14 @@ pub fn run(toks: Vec<Tok>) -> Vec<Tok> {
             return vec![vec![996]];
         };
         let Some(mut s) = crate::front::tls_connect(ep.addr, "localhost", &[b"http/1.1"]).await else { return vec![vec![996]] };
-        let mut head = b"CONNECT example.org:443 HTTP/1.1\r\nHost: x\r\nUser-Agent: verif-agent\r\n".to_vec();
+        // f[8]: the destination of the CONNECT: 0 a name | 1 an IPv4 literal | 2 an IPv6 literal | 3 an IPv4-mapped IPv6 literal
+        let target = match f.get(8).copied().unwrap_or(0) {
+            1 => "203.0.113.9:443",
+            2 => "[2001:db8::7]:443",
+            3 => "[::ffff:203.0.113.9]:443",
+            _ => "example.org:443",
+        };
+        let mut head = format!("CONNECT {} HTTP/1.1\r\nHost: x\r\nUser-Agent: verif-agent\r\n", target).into_bytes();
         if with_creds {
             head.extend_from_slice(b"Proxy-Authorization: Basic dTE6cDE=\r\n"); // u1:p1
         }
@@ -217,6 +224,9 @@ pub fn udp(toks: Vec<Tok>) -> Vec<Tok> {
     let rt = tokio::runtime::Builder::new_multi_thread().worker_threads(2).enable_all().build().unwrap();
     rt.block_on(async move {
         let (ext, n, plen, code) = (f[0] == 1, f[1] as usize, f[2] as usize, f[3] as u8);
+        // f[4] = 1: one client source address talks to two destinations; the first one falls silent for longer than the UDP
+        // timeout (300 ms) while the second keeps exchanging datagrams; out: [status, replies on the second flow, of]
+        let shared_source = f.get(4).copied().unwrap_or(0) == 1;
         let Ok(relay) = tokio::net::UdpSocket::bind("127.0.0.1:0").await else { return vec![vec![996]] };
         let relay_port = relay.local_addr().unwrap().port();
         let seen: Arc<Mutex<Vec<(Vec<u8>, Vec<u8>)>>> = Arc::new(Mutex::new(vec![]));
@@ -337,6 +347,7 @@ pub fn udp(toks: Vec<Tok>) -> Vec<Tok> {
                 .forwarder_settings(ForwardProtocolSettings::Socks5(
                     Socks5ForwarderSettings::builder().server_address(socks_addr).unwrap().extended_auth(ext).build().unwrap(),
                 ))
+                .udp_connections_timeout(Duration::from_millis(if shared_source { 300 } else { 120_000 }))
                 .build()
                 .unwrap()
         };
@@ -359,6 +370,54 @@ pub fn udp(toks: Vec<Tok>) -> Vec<Tok> {
         let status: u128 = String::from_utf8_lossy(&acc).split(' ').nth(1).and_then(|x| x.parse().ok()).unwrap_or(0);
         let mut good_payload = 0u128;
         let mut good_label = 0u128;
+        if status == 200 && shared_source {
+            let p = acc.windows(4).position(|w| w == b"\r\n\r\n").unwrap() + 4;
+            let mut inbox = acc[p..].to_vec();
+            let mk = |dst_last: u8, tag: u8| -> Vec<u8> {
+                let mut body = vec![0u8; 12];
+                body.extend_from_slice(&[10, 8, 0, 2]);
+                body.extend_from_slice(&4000u16.to_be_bytes());
+                body.extend_from_slice(&[0u8; 12]);
+                body.extend_from_slice(&[203, 0, 113, dst_last]);
+                body.extend_from_slice(&5353u16.to_be_bytes());
+                body.push(0);
+                body.extend_from_slice(&[tag, 1, 2, 3]);
+                let mut pkt = (body.len() as u32).to_be_bytes().to_vec();
+                pkt.extend_from_slice(&body);
+                pkt
+            };
+            let mut replies = 0u128;
+            let mut sent = 0u128;
+            // the first destination once, then only the second one, every 100 ms for 1.2 s (four timeouts)
+            let _ = s.write_all(&mk(7, 0)).await;
+            for round in 0..12u8 {
+                let _ = s.write_all(&mk(8, 100 + round)).await;
+                sent += 1;
+                let deadline = tokio::time::Instant::now() + Duration::from_millis(100);
+                loop {
+                    match tokio::time::timeout_at(deadline, s.read(&mut buf)).await {
+                        Ok(Ok(k)) if k > 0 => inbox.extend_from_slice(&buf[..k]),
+                        Ok(_) => break,
+                        Err(_) => break,
+                    }
+                }
+            }
+            let mut i = 0;
+            while inbox.len() >= i + 4 {
+                let ln = u32::from_be_bytes([inbox[i], inbox[i + 1], inbox[i + 2], inbox[i + 3]]) as usize;
+                if inbox.len() < i + 4 + ln || ln < 36 {
+                    break;
+                }
+                let d = &inbox[i + 4..i + 4 + ln];
+                i += 4 + ln;
+                // a reply of the second flow: source 203.0.113.8
+                if d[12..16] == [203, 0, 113, 8] && d.len() == 40 && d[39] >= 100 {
+                    replies += 1;
+                }
+            }
+            drop(s);
+            return vec![vec![status, replies, sent]];
+        }
         if status == 200 {
             let p = acc.windows(4).position(|w| w == b"\r\n\r\n").unwrap() + 4;
             let mut inbox = acc[p..].to_vec();
